@@ -181,6 +181,10 @@ def loop_scenarios(tier, panics=True):
         for site in range(5):
             for thread in (0, 1):
                 out.append(_loop(loop_case(4, 3, 3, 2, 1, 1, panic={"site": site, "thread": thread, "nth": 0})))
+        # test mode (one call per thread, its own path through the synchronisation) with a panic before / in the call
+        for site in (0, 1, 2):
+            for thread in (0, 1):
+                out.append(_loop(loop_case(4, 3, 3, 2, 1, 1, test=True, panic={"site": site, "thread": thread, "nth": 0})))
         # a panic in the second round (state carried between rounds: reused result vector, barrier of the new round)
         for site in (0, 2, 4):
             for thread in (0, 1):
